@@ -585,3 +585,8 @@ Proof.
   - unfold f1_free, f1_freeb in *. destruct (s_retry s); auto. destruct l; auto.
   - unfold f2_free, f2_freeb in *. destruct l; auto. destruct (op_value op); auto. apply negb_true_iff in H3. exact H3.
 Qed.
+
+Theorem converges_plain r0 ls :
+  Forall label_plain ls -> let s := run (init_state r0) ls in
+  quiescentb s = true -> forall R0 k, converged_at s R0 k.
+Proof. intros H. apply converges_except_findings. apply labels_plain_ok. exact H. Qed.
